@@ -279,7 +279,25 @@ def shard_run(arg):
                 live = True
                 chunk = items[i:i + 400]
                 pos[ty] = i + 400
-                rep = mon.call({"op": "batch", "type": ty, "items": [[hx(s.encode()), hx(doc_for(s).encode())] for s in chunk]})
+                try:
+                    rep = mon.call({"op": "batch", "type": ty, "items": [[hx(s.encode()), hx(doc_for(s).encode())] for s in chunk]})
+                except vp.ExecutorDied as e:
+                    # parsing never takes the process down, whatever the string and whatever the state of stderr: find the string
+                    culprit = None
+                    for s1 in chunk:
+                        m1 = vp.Mon("parse", stderr_full=True)
+                        try:
+                            m1.call({"op": "batch", "type": ty, "items": [[hx(s1.encode()), hx(doc_for(s1).encode())]]})
+                        except vp.ExecutorDied:
+                            culprit = s1
+                        finally:
+                            m1.close()
+                        if culprit is not None:
+                            break
+                    sh.evaluations += 1
+                    sh.violation("%s:process-died" % ty, "parsing %r as %s took the process down (status %s; its stderr cannot be written to)" % (culprit if culprit is not None else "one of %d strings" % len(chunk), ty, e.status),
+                                 {"type": ty, "input": hx((culprit or chunk[0]).encode()), "input_repr": repr(culprit), "route": "run-time parse, stderr = /dev/full"})
+                    return sh.dict()
                 for s, r in zip(chunk, rep["results"]):
                     judge(ty, s, r, sh)
         for ty, items in work[:1]:
